@@ -238,6 +238,15 @@ Definition script_obs (s : srt) (o : line) : list bytes :=
     end in
   one GET ++ one HEAD.
 
+(* Go's regexp engine works on runes, the model on bytes: non-ASCII text against a regexp rule is outside the model *)
+Definition ascii_bytes (b : bytes) : bool := forallb (fun c => c <? 128) b.
+Fixpoint node_has_regexp (fuel : nat) (n : node) : bool :=
+  match fuel with
+  | O => false
+  | S f => existsb (fun ch => stype_eqb (styp (nseg ch)) TRegexp || node_has_regexp f ch) (nchildren n)
+  end.
+Definition tree_has_regexp (t : tree) : bool := node_has_regexp (tree_fuel t) (troot t).
+
 Definition step_rt (s : srt) (o : line) : srt * list bytes :=
   let op := arg 0 o in
   let a := args o in
@@ -271,13 +280,15 @@ Definition step_rt (s : srt) (o : line) : srt * list bytes :=
     if match parent with Some p => negb (fprefix p) | None => false end then (s, [bs "ok"]) else
     (s <| facs := (arg 1 o, f) :: facs s |>, [bs "ok"])
   else if beqb op (bs "serve") then
-    (s, serve_obs (rtree (rt s)) (arg 1 o) (arg 2 o) [])
+    if negb (ascii_bytes (arg 2 o)) && tree_has_regexp (rtree (rt s)) then (s, [bs "unsup"])
+    else (s, serve_obs (rtree (rt s)) (arg 1 o) (arg 2 o) [])
   else if beqb op (bs "routes") then (s, routes_obs (rtree (rt s)))
   else if beqb op (bs "dump") then (s, dump_tree (rtree (rt s)))
   else if beqb op (bs "url") then
     (* url <target> <strict> <pattern> <n> k v … *)
     let ps := pairs (fst (take_list (skipn 4 a))) in
     let ps := fold_left (fun acc kv => ctx_set acc (fst kv) (snd kv)) ps [] in
+    if argb 2 o && negb (forallb (fun kv => ascii_bytes (snd kv)) ps) && tree_has_regexp (rtree (rt s)) then (s, [bs "unsup"]) else
     match target_facade s (arg 1 o) with
     | None => (s, url_obs (r_url (rt s) (argb 2 o) (arg 3 o) ps))
     | Some f => (s, url_obs (f_url (rt s) f (argb 2 o) (arg 3 o) ps))
@@ -365,6 +376,12 @@ Definition serve_clauses (s : srt) (o : line) (r : list bytes) : list bytes :=
   let ps := pairs (skipn 8 r) in
   let trace := c_trace (tc s) in
   let lt := live_toks s in
+  let table_has_regexp := match lt with
+                          | Some l => existsb (fun pt => existsb (fun t => match t with
+                                                                        | TPar _ _ rule => match kind_of (c_ic (tc s)) rule with KRegexp _ => true | _ => false end
+                                                                        | TLit _ => false end) (snd pt)) l
+                          | None => false end in
+  let lt := if negb (ascii_bytes path) && table_has_regexp then None else lt in   (* runes vs bytes: not judged *)
   let special := beqb path (bs "*") || beqb path [] || (trace && beqb method TRACE) in
   (* ---- resolution against the table (C02 on add-only routers, C03 on simple witnesses) *)
   let resolution :=
@@ -523,6 +540,9 @@ Definition url_clauses (s : srt) (o : line) (r : list bytes) : list bytes :=
     if strict then
       match classify (c_ic (tc s)) p with
       | PWf ts =>
+        if negb (forallb (fun kv => ascii_bytes (snd kv)) ps) &&
+           existsb (fun t => match t with TPar _ _ rule => match kind_of (c_ic (tc s)) rule with KRegexp _ => true | _ => false end | _ => false end) ts
+        then [] else
         let valid := ahas p (live s) &&
                      forallb (fun t => match t with
                                        | TPar _ n rule => match ctx_get ps n with
